@@ -39,6 +39,20 @@ CHECKS.update({
    text='fill_values (every written member reads back the schema value when it fits), fill_frame (no other byte of the header or behind it changes; length preserved), message_filler_is_fields / group_filler_is_fields (what is written: schemaId, templateId, version, blockLength / blockLength, numInGroup, + declared numGroups/numVarDataFields), block_length_value (explicit or computed), sorted_members_disjoint. Correspondence: 40/200 generated schemas whose header composites are permuted, offset, padded, ref-typed, of every unsigned type, with optional counters; real fillers on random pre-filled buffers, all bytes compared; returned view must be the header.',
    note='Trusted as C01. Values that do not fit the member type are a C07 matter (generated code does not compile).'),
 })
+CHECKS.update({
+ 'C12': dict(
+   technique='Lean 4 proof over kernels extracted from flat_group_base / random_access_iterator / nested_group_base / forward_iterator on every run, generic over the 16 dimension type pairs, + differential check (real templates over hand-declared dimension composites vs model vs Int specification, unchecked and checked builds)',
+   text='25 obligations, generic over DimTy NT / DimTy BT, for every header content and step: begin_spec, end_spec, plus_spec, minus_spec, subscript_is_deref_plus, add_sub_cancel, order_matches_index (all six operators), entry_address_{subscript,front,back,iteration} (entry i at data start + i*wire blockLength, block length 0 included), forward_entry_chain, nested_size_bytes_spec, resize/clear_writes_only_numInGroup; begin_plus_size_eq_end and distance_matches_index hold under the explicit hypothesis that the step/distance is representable in difference_type (= make_signed<size_type>, pinned by the repo tests) - the unrestricted statements are kept as defs and refuted by kernel-checked witnesses (*_full_false). Correspondence: all depth<=3 iterator expressions over small groups for all 16 pairs + boundary grid (127/128/255, 32767/32768/65535, 2^31+-1, 2^32-1, 2^63, 2^64-1; block length 0,1,max) + random.',
+   note='Trusted: extract/kernels_group.py (its shape table pins 22 composite bodies), CInt encoding, harness. Hypotheses: representable differences; address space [0,2^63). Checked-build assertion outcomes, post-increment/decrement, operator-> and cursor ranges are differential only / not modelled. begin()+n for n >= 2^(w-1) of the numInGroup type is inherent to difference_type and reported as such.'),
+ 'C13': dict(
+   technique='Lean 4 refinement proof (hand-transliterated model of dynamic_array_ref vs List specification of std::vector, induction over operation histories) + differential correspondence on every run (C++ harness vs model vs spec vs the harness own std::vector)',
+   text='op_refine / op_frame / ops_refine / valid_for_vector_valid_here / erase_to_end_valid / bounded_by_buffer / push_back_bounded / size_spec / size_bytes_spec: for every length width and byte order, every one of the 18 operations and every history valid for a vector whose results fit the length type and the view does not assert, returns the vector iterator, leaves prefix and payload equal to the vector size and contents, and changes no byte beyond the payload area in use. Correspondence exhaustive at depth<=2 (quick) / <=3 (thorough) from small states + long random sequences x 4 length types x 2 byte orders x 3 element types x 3/8 compiler configurations incl. the unchecked build.',
+   note='Trusted: Lean kernel; Rt/DynArray.lean is hand-written and tied to /repo by the differential run only; standard algorithms modelled by their specification; harness. Out of scope of the theorems: results beyond the length type range (size()+count wraps silently - see DESIGN findings, C10 territory) and source ranges aliasing the array.'),
+ 'C19': dict(
+   technique='Lean 4 proof that the tree reconstructed from a buffer by the runtime walk (parseL) is the encoded value tree (mutual structural induction), hence the visit-event observer on buffers equals the specified callbacks; + Layer R: recording visitor with a stop counter swept over every k on real generated code, by-tag access compared with named accessors',
+   text='visit_events (callbacks = specified records for any nesting/counts/extension), parseL_flatten, visit_cursor_at_end, visit_stops (a stopped visit saw exactly the first k records), set_visit, enum_visit (value tag name or unknown). Correspondence: for generated schemas, every stopping point k of a visit of a reference image (records, stop flag, cursor at end after a complete visit, buffer unchanged); member names are taken from the traits of the tag each callback received; get_by_tag vs named accessor for every member; complete encode through set_by_tag/get_by_tag vs specification.',
+   note='Trusted as C02; that the generated ||-chains invoke callbacks in schema order is established by the differential check only. Visiting a composite/enum/set stand-alone (outside a message) and on_message header visiting are not exercised.'),
+})
 NOT_APPLICABLE = {}
 
 ALL = ['C%02d' % i for i in range(1, 21)]
